@@ -53,16 +53,25 @@ func c09Neighbours(r *rng, used map[uint32]bool, n int) *ring.Desc {
 	return d
 }
 
-// c09Continue drives the (re)started subject to ACTIVE the way the real loops would.
-func c09Continue(w *world, idx int) {
+// c09Continue drives the (re)started subject to ACTIVE the way the real loops would. With hbEarly the heartbeat
+// ticker fires before the join timer and between the observe rounds (HeartbeatPeriod < JoinAfter / ObservePeriod).
+func c09Continue(w *world, idx int, hbEarly bool) {
 	nd := w.nodes[idx]
 	if w.fire(idx, "init", pickInitArg(nd), "n") != "ok" {
 		return
 	}
 	if nd.cfg.kind == 'L' {
+		if hbEarly {
+			w.vnow += 2
+			w.fire(idx, "hb", "-", "n")
+			w.vnow += 2
+		}
 		w.fire(idx, "join", "-", "n")
 		for t := 0; t < 3 && nd.lc.GetState() == ring.JOINING; t++ {
 			w.vnow += 2
+			if hbEarly {
+				w.fire(idx, "hb", "-", "n")
+			}
 			if w.fire(idx, "verify", "-", "n") == "yes" {
 				w.fire(idx, "cs", "A", "n")
 			}
@@ -71,6 +80,9 @@ func c09Continue(w *world, idx int) {
 		if nd.cfg.observe && len(nd.blc.GetTokens()) > 0 {
 			for t := 0; t < 3; t++ {
 				w.vnow += 2
+				if hbEarly {
+					w.fire(idx, "hb", "-", "n")
+				}
 				if w.fire(idx, "verify", "-", "n") == "yes" {
 					break
 				}
@@ -139,6 +151,12 @@ func c09Scenarios() []c09Scen {
 				keep.unregister = false
 				out = append(out, c09Scen{name: "leavekeep-" + tag, subject: keep, setup: join, script: stop})
 				if kind == 'L' && !observe {
+					// token hand-over seen from the LEAVING side: node 1 claims the subject's tokens while the subject is
+					// still alive and heartbeating; afterwards the subject exits and is restarted
+					taker := lcfg{kind: 'L', id: "i1", addr: "a1:1", zone: "z1", numTokens: 3, hbTimeout: 61, registerState: ring.ACTIVE, unregister: true}
+					out = append(out, c09Scen{name: "handover-" + tag, subject: keep, others: []lcfg{taker}, setup: join,
+						script: []c09op{{0, "cs", "L", "n"}, {0, "hb", "-", "n"}, {1, "init", "s7", "n"}, {1, "xcs", "J", "n"}, {1, "claim", "i0", "n"},
+							{0, "hb", "-", "n"}, {1, "xcs", "A", "n"}, {1, "hb", "-", "n"}, {0, "hb", "-", "n"}, {1, "hb", "-", "n"}}})
 					// token hand-over: the subject claims the tokens of a LEAVING neighbour while JOINING
 					out = append(out, c09Scen{name: "claim-" + tag, subject: base,
 						ring: func(r *rng, used map[uint32]bool, nt int) *ring.Desc {
@@ -278,7 +296,7 @@ func c09CrashCase(seed uint64, caseNo int, dir string, scNo int, sc c09Scen, var
 		w.crash(0)
 	}
 	w.vnow += 4
-	c09Continue(w, 0)
+	c09Continue(w, 0, variant%2 == 1)
 	if w.bad {
 		return "", false, false
 	}
@@ -306,7 +324,7 @@ func c09FaultCase(seed uint64, caseNo int, dir string) (string, bool) {
 	}
 	files, init0, cfgs := c09Prepare(w, sc, r, dir, caseNo)
 	defer c09Cleanup(w)
-	c09Continue(w, 0)
+	c09Continue(w, 0, caseNo%2 == 1)
 	nd := w.nodes[0]
 	if nd.lc == nil && nd.blc == nil {
 		return "", !w.bad
@@ -364,6 +382,52 @@ func c09FaultCase(seed uint64, caseNo int, dir string) (string, bool) {
 	return c09Line(w, "fault/k"+itoa(caseNo), cfgs, files, init0, "-"), true
 }
 
+// c09TargetedFault: the store rejects exactly the JOINING->ACTIVE write at the end of the observe period, or the
+// ACTIVE->LEAVING write at shutdown; then it accepts writes again and the heartbeat ticker goes on.
+func c09TargetedFault(seed uint64, caseNo int, dir string) (string, bool) {
+	r := newRng(seed, uint64(70000+caseNo))
+	w := newWorld(r)
+	defer w.close()
+	which := caseNo % 2 // 0: activation write rejected, 1: leaving write rejected
+	fault := []string{"fb", "fc"}[(caseNo/2)%2]
+	sub := lcfg{kind: 'L', id: "i0", addr: "a0:1", zone: "z1", numTokens: 1 + r.intn(3), observe: which == 0 || r.chance(1, 2), hasFile: r.chance(1, 2),
+		hbTimeout: 61, readinessRing: r.chance(1, 2), registerState: ring.ACTIVE, unregister: true}
+	sc := c09Scen{name: "tfault", subject: sub}
+	files, init0, cfgs := c09Prepare(w, sc, r, dir, caseNo)
+	defer c09Cleanup(w)
+	expect := "-"
+	step := func(ev, arg, f string) string { w.vnow += 2; return w.fire(0, ev, arg, f) }
+	if which == 0 {
+		step("init", "s7", "n")
+		step("join", "-", "n")
+		if r.chance(1, 2) {
+			step("hb", "-", "n")
+		}
+		if step("verify", "-", "n") == "yes" {
+			step("cs", "A", fault) // rejected; the loop does not retry
+		}
+		for k := r.intn(2); k >= 0; k-- {
+			step("hb", "-", fault) // the window may last a few more heartbeats
+		}
+		step("hb", "-", "n")
+		step("hb", "-", "n")
+		step("ready", "-", "n")
+		expect = "0"
+	} else {
+		c09Continue(w, 0, r.chance(1, 2))
+		step("cs", "L", fault) // stopping(): rejected, error only logged
+		for k := r.intn(2); k >= 0; k-- {
+			step("hb", "-", fault)
+		}
+		step("hb", "-", "n")
+		step("hb", "-", "n")
+	}
+	if w.bad {
+		return "", false
+	}
+	return c09Line(w, "tfault/"+[]string{"activate", "leave"}[which]+"-"+fault+"/k"+itoa(caseNo), cfgs, files, init0, expect), true
+}
+
 func runC09(e *env) {
 	dir, err := os.MkdirTemp("", "verif-c09-")
 	if err != nil {
@@ -407,4 +471,5 @@ func runC09(e *env) {
 		nf, _ = strconv.Atoi(e.args[0])
 	}
 	c08Parallel(e, nf, "c09f", c09FaultCase)
+	c08Parallel(e, 80*e.scale, "c09t", c09TargetedFault)
 }
